@@ -34,5 +34,7 @@ def conditions(tier):
     # element structure at line-kind level: the REAL parser + REAL AstBuilder from every grammar configuration; the AST must contain
     # exactly the rules / backgrounds / scenarios / examples / steps / rows / doc strings / tags / comments the specification-level parser opened
     cs += _p.pdrv_conditions(k_all=1, k_tags=1, stop_too=False) if q else _p.pdrv_conditions(k_all=2, k_tags=2, stop_too=False)[::2]
+    # the scanner hands the matcher the physical lines of the source text, cut at line feeds and nowhere else (exact text, nothing extra)
+    cs.append(Cond("harness.c18", "scan_text", {"maxlen": 4 if q else 6}, T=900, reach=["two-lines"]))
     cs.append(Cond(_d.M, "twin_never_parses", {"shape": "steps"}, T=120, expect="cex"))
     return cs
